@@ -22,6 +22,7 @@ EXPLANATION = (
     ' Round 4: (9) string methods are applied to an event of the nested ESC decode only after an isinstance test excluded every tuple event (mouse 4-tuples and cursor-position 3-tuples).'
     ' Round-4 triage: (10) a caller of parse_input without an event loop (the synchronous get_input) decodes a held partial sequence itself: every path from its first synchronous parse passes a test of _partial_codes whose true branch parses with wait_for_more=False. Round 5: (11) the SGR mouse decoder finds the first `M` or `m` with one joint test; (12) every os.read() drain loop leaves on an empty read (end of file); (10) now also accepts a wait_for_more argument that can be False (the refined fix 190a3c8 waits while new bytes keep arriving).'
     ' Round 6: (10) after every parse_input call of the synchronous get_input that may leave bytes pending, _partial_codes is tested again before the function returns (the completion step is a loop).'
+    ' (13) TAINT: text from the terminal reaches int() in escape.py only after an isascii() and isdigit() test of every field (fix 62201b6).'
 )
 NOT_DECIDED = (
     "That event names/coordinates are the documented ones for every sequence; equality of event lists under all cuts for value-dependent recognisers "
@@ -625,6 +626,33 @@ def rule_drain_eof(ctx: Ctx) -> RuleResult:
     return rr
 
 
+def rule_digits_only(ctx: Ctx) -> RuleResult:
+    """'Bytes that form no known sequence are passed through': the numeric fields of a terminal report are decimal
+    ASCII digits and nothing else.  int() accepts much more - a sign, surrounding blanks, `_` separators, non-ASCII
+    digits - so text from the terminal reaches int() in the input decoder only after every field was tested with
+    str.isdigit() *and* str.isascii() (isdigit alone is also true for superscript digits, on which int() raises).
+    Before fix 62201b6 ESC [ < 0 ; 5 ; -3 M was reported as a mouse press at row -4."""
+    p = ctx.p
+    rr = RuleResult("TAINT", "C05.13", "text from the terminal reaches int() only after an isascii() and isdigit() test of every field", floor=1)
+    m = p.modules["urwid.display.escape"]
+    for fi in m.functions:
+        calls = [c for c in fi.own_nodes() if isinstance(c, ast.Call) and isinstance(c.func, ast.Name) and c.func.id == "int" and c.args and not isinstance(c.args[0], ast.Constant)]
+        if not calls:
+            continue
+        cfg = cfg_of(fi)
+        for c in calls:
+            cn = next((x for x in cfg.nodes if any(y is c for e in node_exprs(x) for y in ast.walk(e))), None)
+            tests = [t for t in cfg.nodes if t.kind == "test" and cn is not None and cfg.dominated(cn, [t]) and any(isinstance(x, ast.Attribute) and x.attr == "isdigit" for x in ast.walk(t.ast)) and any(isinstance(x, ast.Attribute) and x.attr == "isascii" for x in ast.walk(t.ast))]
+            # the test must reject: the int() call lies on one side only
+            from ..rules.exc import ExcEngine
+
+            ok = any(cn not in ExcEngine._reach_without_edge(cfg, t, "F") or cn not in ExcEngine._reach_without_edge(cfg, t, "T") for t in tests)
+            rr.inst(f"{short(fi)}: {norm(c, 40)}", True, {"call": norm(c, 50), "digit_tests": [norm(t.ast, 70) for t in tests], "guarded": ok})
+            if not ok:
+                rr.add(finding("TAINT", fi, c, f"`{norm(c, 40)}` converts text that came from the terminal without a preceding isascii() and isdigit() test of it: int() also accepts '-3', ' 5', '+3', '1_0' (a report with such a field is taken for a mouse event with a negative or garbled coordinate) and raises ValueError on non-ASCII digits that pass isdigit() alone", construct=f"terminal text to int() without digit test: {norm(c, 40)}"))
+    return rr
+
+
 def run(ctx: Ctx):
     p = ctx.p
     out = [
@@ -651,6 +679,7 @@ def run(ctx: Ctx):
     out.append(rule_sync_timeout(ctx))
     out.append(rule_first_terminator(ctx))
     out.append(rule_drain_eof(ctx))
+    out.append(rule_digits_only(ctx))
     return out
 
 
@@ -659,6 +688,8 @@ from ..mutants import Mut  # noqa: E402
 _E = "urwid/display/escape.py"
 _R = "urwid/display/_raw_display_base.py"
 MUTANTS = [
+    Mut("sgr-mouse-fields-straight-to-int", "urwid/display/escape.py", "KeyqueueTrie.read_sgrmouse_info", "        if not all(field.isascii() and field.isdigit() for field in fields):\n            # int() would also take signs, blanks and underscores: not a known sequence\n            return None\n", "", "TAINT|display.escape.KeyqueueTrie.read_sgrmouse_info|terminal text to int() without digit test"),
+    Mut("sgr-mouse-fields-isdigit-only", "urwid/display/escape.py", "KeyqueueTrie.read_sgrmouse_info", "field.isascii() and field.isdigit()", "field.isdigit()", "TAINT|display.escape.KeyqueueTrie.read_sgrmouse_info|terminal text to int() without digit test"),
     Mut("sync-completion-single-retry", "urwid/display/_raw_display_base.py", "urwid.display._raw_display_base.Screen.get_input", "        while self._partial_codes:", "        if self._partial_codes:", "PASS|display._raw_display_base.Screen.get_input|get_input: partial sequence not re-tested after a parse"),
     Mut("raw-input-drain-ignores-eof", "urwid/display/_posix_raw_display.py", "urwid.display._posix_raw_display.Screen._read_raw_input", "                data = os.read(fd, 1024)\n                if not data:\n                    # end of file: the descriptor stays \"readable\" forever\n                    break\n                chars.extend(data)", "                chars.extend(os.read(fd, 1024))", "PROG|display._posix_raw_display.Screen._read_raw_input"),
     Mut("sgr-mouse-prefers-press-terminator", _E, "KeyqueueTrie.read_sgrmouse_info", "        value = \"\"\n        pos_m = 0\n        found_m = False\n        for k in keys:\n            value += chr(k)\n            if k in {ord(\"M\"), ord(\"m\")}:\n                found_m = True\n                break\n            pos_m += 1\n        if not found_m:", "        value = \"\".join(chr(k) for k in keys)\n        pos_m = value.find(\"M\")\n        if pos_m < 0:\n            pos_m = value.find(\"m\")\n        found_m = pos_m >= 0\n        value = value[: pos_m + 1]\n        if not found_m:", "SIB|display.escape.KeyqueueTrie.read_sgrmouse_info"),
@@ -670,7 +701,7 @@ MUTANTS = [
     Mut("mouse-info-no-more-input", _E, "KeyqueueTrie.read_mouse_info", "        if len(keys) < 3:\n            if more_available:\n                raise MoreInputRequired()\n            return None", "        if len(keys) < 3:\n            return None", "PAIR|display.escape.KeyqueueTrie.read_mouse_info"),
     Mut("cursor-report-cut-before-R", _E, "KeyqueueTrie.read_cursor_position", "        if not keys[i:] and more_available:\n            raise MoreInputRequired()\n        return None", "        return None", "PAIR|display.escape.KeyqueueTrie.read_cursor_position"),
     Mut("utf8-tail-not-awaited", _E, "process_keyqueue", "            if len(codes) <= i:\n                if more_available:\n                    raise MoreInputRequired()\n", "            if len(codes) <= i:\n", "PAIR|display.escape.process_keyqueue"),
-    Mut("sgr-mouse-int-unguarded", _E, "KeyqueueTrie.read_sgrmouse_info", "        try:\n            (b, x, y) = (int(val) for val in value[:-1].split(\";\"))\n        except ValueError:\n            # malformed report (wrong number of fields or a non-numeric field): not a known sequence\n            return None", "        (b, x, y) = (int(val) for val in value[:-1].split(\";\"))", "EXC|"),
+    Mut("sgr-mouse-int-unguarded", _E, "KeyqueueTrie.read_sgrmouse_info", "        try:\n            (b, x, y) = (int(val) for val in fields)\n        except ValueError:\n            # malformed report (wrong number of fields): not a known sequence\n            return None", "        (b, x, y) = (int(val) for val in fields)", "EXC|"),
     Mut("partial-codes-not-kept", _R, "urwid.display._raw_display_base.Screen.parse_input", "            self._partial_codes = codes\n", "", "ORDER|"),
     Mut("timeout-not-cancelled-before-parse", _R, "urwid.display._raw_display_base.Screen.parse_input", "        if self._input_timeout and event_loop:\n            event_loop.remove_alarm(self._input_timeout)\n            self._input_timeout = None\n", "", "ORDER|"),
     Mut("twin-mouse-info-guard-merged", _E, "KeyqueueTrie.read_mouse_info", "        if len(keys) < 3:\n            if more_available:\n                raise MoreInputRequired()\n            return None", "        if len(keys) < 3 and more_available:\n            raise MoreInputRequired()\n        if len(keys) < 3:\n            return None", twin=True),
